@@ -36,6 +36,50 @@ def run(ctx):
                      "operand (SWAP) or evaluated, never decided without evaluation" % sorted(s))
     ctx.ob("R3", "cell(SFunction,SFunction)", r1 and r2, ctx.where(body),
            "the first function is evaluated (R1) and its value meets the second through cell(value,SFunction) (R2)")
+    # R5: the arguments of two complex terms (and the elements of two lists) meet through unify(), never through `==`:
+    # a structural comparison decides `p(2) = p(add(1, 1))` without evaluating the function term
+    from sym import strip as _strip, lookup as _lookup, mentions as _mentions, show as _show
+    selfp = ("param", 1, body.locals[1].get("name") or "")
+    otherp = ("param", 2, body.locals[2].get("name") or "")
+
+    def element_of(t, root):
+        """Is t (a reference to) an argument / element inside the term `root` — not its functor (index 0)?"""
+        t = _strip(t)
+        while isinstance(t, tuple) and t and t[0] in ("ref", "deref"):
+            t = _strip(t[1])
+        lk = _lookup(t)
+        if lk is not None:
+            coll, key = lk
+            if _mentions(coll, lambda y: y == root) or coll == root:
+                k = _strip(key)
+                return not (isinstance(k, tuple) and k and k[0] == "const" and k[3] == 0)
+            return False
+        if isinstance(t, tuple) and t and t[0] == "field" and t[2] in ("SLinkedList.term",) and (_mentions(t[1], lambda y: y == root) or _strip(t[1]) == root):
+            return True
+        import iters as _iters
+        pos = _iters.position(t)
+        if pos is not None and (_mentions(pos[0], lambda y: y == root) or _strip(pos[0]) == root):
+            key = pos[1]
+            return not (key[0] == "term" and isinstance(_strip(key[1]), tuple) and _strip(key[1])[0] == "const" and _strip(key[1])[3] == 0)
+        return False
+    ok5, why5, n5 = True, "", 0
+    for pair in (("SComplex", "SComplex"), ("SLinkedList", "SLinkedList")):
+        for oc, rel, p in table[pair].paths:
+            for e in p.events:
+                if e["k"] != "branch":
+                    continue
+                c = _strip(e["cond"])
+                if c[0] == "unop" and c[1] == "Not":
+                    c = _strip(c[2])
+                if not (c[0] == "call" and (c[1].endswith("::eq") or c[1].endswith("::ne")) and len(c[2]) == 2):
+                    continue
+                n5 += 1
+                a, b = c[2]
+                if (element_of(a, selfp) and element_of(b, otherp)) or (element_of(a, otherp) and element_of(b, selfp)):
+                    ok5, why5 = False, ("an argument of the one term is compared with an argument of the other by `==` (line %d: %s) "
+                                        "instead of being unified with it: a function term there is never evaluated" % (e["line"], _show(c)[:70]))
+    ctx.ob("R5", "arguments-meet-through-unify", ok5, ctx.where(body), why5 or
+           "no `==` between an argument of the one term and an argument of the other (%d equality tests looked at)" % n5)
     # R4: every return of unify_sfunction is <value of this function term>.unify(other, ss)
     import funcs
     fa = funcs.analyse(prog, ctx)
